@@ -200,9 +200,11 @@ def spec_cases(step):
     if step.tag == 'MODEL ':
         d = step.model_digits
         val = sum((d[i] - 48) * 10 ** (3 - i) for i in range(4))
-        return [(True, dict(pre, model=val, nterm_residue=NEXT), None)]
+        # 'the first residue of a model' is a chain start whatever its chain and number: nothing is remembered of the last C-terminal residue
+        return [(True, dict(pre, model=val, nterm_residue=NEXT, old_residue=None), None)]
     if step.tag.startswith('TER'):
-        return [(True, dict(pre, nterm_residue=NEXT), None)]
+        # ... and so is the residue 'after a TER record'
+        return [(True, dict(pre, nterm_residue=NEXT, old_residue=None), None)]
     f = line_fields(step)
     ignored = ex.contains(step.ignore, f['resname'])
     selected = True if not step.chains else ex.contains(step.chains, f['chain'])
